@@ -13,6 +13,12 @@ import PdfModel.Model.Import
              res joined by `,`: `<kind>.<name>.<payload>:<kids>`; rest: kids; kind = 0..6 in the order of `RKind`
       → per page `ok/<res>/<rest>` (res: `<kind>.<name>.<payload>:<new kids>`, in insertion order oldest
         first; rest: new references) or `err`/…, joined by ` `… then `|<map>|<objs>`
+  c20.tpage <fuel> <next> <nodes> <page> <page> …     pages as they sit in the page tree
+      page   `ops/resChain/rest/media/crop/trim/rotate`; chains: levels (page, parent, grand-parent, …) joined by `~`,
+             `!` = no entry at that level; a resource level is `-` (empty dictionary) or entries joined by `,`
+      → per page `ok/<res>/<rest>/<media>.<crop>.<trim|!>.<rotate>` or `err`/…, then `|<map>|<objs>`
+  c20.frompage <page>                                 `PageBuilder::from_page`
+      → `ok/<res: kind.name.payload:kids>/<media>.<crop>.<trim|!>.<rotate>` | `err`
   c20.old.clone <fuel> <next> <nodes> <roots>    the code before the fixes (first failing root ends the run)
 -/
 
@@ -89,6 +95,45 @@ def showPageOut (o : PageOut) : String :=
   let res := o.res.reverse.map fun p => s!"{kindIx p.1.1}.{p.1.2}.{p.2.1}:{showNats "+" p.2.2}"
   s!"ok/{if res.isEmpty then "-" else joinWith "," res}/{showNats "+" o.rest}"
 
+def parseOptNat (s : String) : Option (Option Nat) :=
+  if s == "!" then some none else (natOf s).map some
+
+def parseChain (s : String) : Option (List (Option Nat)) := mapM? parseOptNat (s.splitOn "~")
+
+def parseResLevel (s : String) : Option (Option (ResTable Entry)) :=
+  if s == "!" then some none else (parseList parseRes s).map some
+
+def parsePageT (s : String) : Option PageT :=
+  match s.splitOn "/" with
+  | [ops, res, rest, media, crop, trim, rot] => do
+    some ⟨← parseList parseOp ops, ← mapM? parseResLevel (res.splitOn "~"), ← parseChain media, ← parseChain crop,
+      ← parseOptNat trim, ← parseChain rot, ← parseEdges rest⟩
+  | _ => none
+
+def showOptNat' : Option Nat → String
+  | none => "!"
+  | some n => toString n
+
+def showPageOutT (o : PageOutT) : String :=
+  let res := o.res.reverse.map fun p => s!"{kindIx p.1.1}.{p.1.2}.{p.2.1}:{showNats "+" p.2.2}"
+  s!"ok/{if res.isEmpty then "-" else joinWith "," res}/{showNats "+" o.rest}/{o.media}.{o.crop}.{showOptNat' o.trim}.{o.rotate}"
+
+def showPageResT : Out PageOutT → String
+  | .ok o => showPageOutT o
+  | x => x.tag
+
+def showEdge (e : Edge) : String :=
+  match e.kind with
+  | .prim => s!"p{e.tgt}"
+  | .ref => s!"t{e.tgt}"
+  | .rc => s!"r{e.tgt}"
+
+def showFrom : Out FromOut → String
+  | .ok o =>
+    let res := o.res.map fun p => s!"{kindIx p.1.1}.{p.1.2}.{p.2.payload}:{if p.2.kids.isEmpty then "-" else joinWith "+" (p.2.kids.map showEdge)}"
+    s!"ok/{if res.isEmpty then "-" else joinWith "," res}/{o.media}.{o.crop}.{showOptNat' o.trim}.{o.rotate}"
+  | x => x.tag
+
 def showPageRes : Out PageOut → String
   | .ok o => showPageOut o
   | x => x.tag
@@ -120,6 +165,16 @@ def handle (args : List String) : String :=
       let r := clonePages f (srcOf ns) ps (St.init n)
       s!"{if r.1.isEmpty then "-" else joinWith " " (r.1.map showPageRes)}|{showSt r.2}"
     | _, _, _, _ => "bad-request"
+  | "c20.tpage" :: fuel :: next :: nodes :: pages =>
+    match natOf fuel, natOf next, parseNodes nodes, mapM? parsePageT pages with
+    | some f, some n, some ns, some ps =>
+      let r := clonePagesT f (srcOf ns) ps (St.init n)
+      s!"{if r.1.isEmpty then "-" else joinWith " " (r.1.map showPageResT)}|{showSt r.2}"
+    | _, _, _, _ => "bad-request"
+  | ["c20.frompage", page] =>
+    match parsePageT page with
+    | some p => showFrom (fromPageT p)
+    | none => "bad-request"
   | _ => "bad-request"
 
 end DrvC20
